@@ -31,6 +31,10 @@ const (
 	OpEgWait
 	OpChoose
 	OpSelect
+	OpWgWait
+	OpCondWait
+	OpEgSlot
+	OpRecvU
 )
 
 type chanProbe interface {
@@ -48,6 +52,9 @@ type Op struct {
 	cx   *Ctx
 	sel  []SelCase
 	def  bool
+	wg   *WaitGroup
+	cw   *condWaiter
+	cm   *chanMeta
 }
 
 //go:norace
@@ -62,7 +69,10 @@ func (o *Op) enabled() bool {
 	case OpSend:
 		return o.ch.chLen() < o.ch.chCap()
 	case OpRecv:
-		return o.ch.chLen() > 0
+		// (an empty buffered channel is also ready once it is closed; probing is safe when empty)
+		return o.ch.chLen() > 0 || o.ch.chClosed()
+	case OpRecvU:
+		return len(o.cm.slot) > 0 || o.ch.chClosed()
 	case OpDone:
 		if o.cx != nil {
 			return o.cx.isDone()
@@ -70,6 +80,12 @@ func (o *Op) enabled() bool {
 		return o.ch.chClosed()
 	case OpEgWait:
 		return o.g.n == 0
+	case OpWgWait:
+		return o.wg.n == 0
+	case OpCondWait:
+		return o.cw.woken
+	case OpEgSlot:
+		return o.g.limit <= 0 || o.g.n < o.g.limit
 	case OpSelect:
 		if o.def {
 			return true
